@@ -31,4 +31,16 @@ CHECKS["C20"] = {
   "note": "exact reals; pinv/matrix_rank by closed forms with determinants named as atoms (abstraction by naming, unfolded for equalities); strict positivity decided only for d=1",
   "technique": TECH,
 }
+CHECKS["C15"] = {
+  "text": "periodic_pairwise_euclidean_distances and pairwise_mahalanobis_distances are executed on symbolic points inside a bounded box; np.round becomes a finite integer fork, after which every squared distance is an explicit polynomial, and the solver decides on every path: distance <= every periodic image (incl. free space) and attained by one (minimum-image definition), symmetry, zero diagonal / images, <= half cell diagonal, integer image-shift invariance, squared = square, 1-D triangle inequality, no-cell == Euclidean formula, identity precision == periodic Euclidean, L L^T precision == Euclidean on whitened points, Mahalanobis with cell == quadratic form of the minimum-image displacement, stack independence, dimension mismatch rejected. Bounded: dim<=2 (3 thorough), coordinates within +-1 (2) cells.",
+  "design_ref": "DESIGN.md 2/C15",
+  "note": "exact reals; coordinates bounded so the image index ranges over a finite set; sklearn check_pairwise_arrays/_euclidean_distances stubbed by contract/formula; n-D triangle inequality not queried directly",
+  "technique": TECH,
+}
+CHECKS["C16"] = {
+  "text": "QuickShift.fit/_qs_next/_gs_next/_get_gabriel_graph are executed with a fully symbolic squared-distance matrix (through the public metric parameter), symbolic cut-offs/scale and every strict weight ordering; on each path the labels are compared with a reference model written as formulas (nearest strictly heavier allowed neighbour, tie-accepting): self-labelled centres, centres without heavier allowed neighbour, every point follows a valid next, heaviest point is a centre, Gabriel graph == brute-force definition, and the partition is recomputed for every permutation of the input order (n=3: all 6) and for periodic images. Bounded: n=3 (+ collinear n=4 for Gabriel shells; n=4 in thorough).",
+  "design_ref": "DESIGN.md 2/C16",
+  "note": "exact reals; distance ties make the nearest neighbour ambiguous: the order dependence they cause is a recorded genuine finding (signature distance-tie); any order dependence without a tie is a violation",
+  "technique": TECH,
+}
 NOT_APPLICABLE = {}
